@@ -93,6 +93,98 @@ def r01b(ctx, run):
     c12.noeval_law(ctx, run, clauses=("wrapped", "rejected"))
 
 
+def r01c(ctx, run):
+    """literal members: store_struct_fields / store_array_items evaluated from source on a literal whose members are written in another order than
+    the declaration.  The initialisers are compiled in the order WRITTEN (their side effects are the program's), each exactly once, into its own
+    field's offset with its own field's type."""
+    from symint import SymInterp
+    from absint import Obj, Term, Variant, Panic, CannotEstablish
+    FN = "codegen/src/compiler/functions.rs"
+    sf = ctx.syn.fn("FunctionCompiler::store_struct_fields", FN)
+    sa = ctx.syn.fn("FunctionCompiler::store_array_items", FN)
+
+    class Mem(Obj):
+        pass
+
+    class Ty_(Obj):
+        pass
+
+    class SI(SymInterp):
+        def __init__(self, **kw):
+            super().__init__(**kw)
+            self.stores = []
+
+        def eval(self, e, env):
+            if e.get("k") == "cast":
+                return self.eval(e["e"], env)
+            if e.get("k") in ("ref",) or (e.get("k") == "un" and e.get("op") in ("*", "&")):
+                return self.eval(e["e"], env)
+            return super().eval(e, env)
+
+        def binop(self, op, l, r, e):
+            if op == "*" and (isinstance(l, Term) or isinstance(r, Term)):
+                return Term("mul", *sorted([repr(l), repr(r)]))
+            if op in ("==", "!=") and isinstance(l, Term) and isinstance(r, Term):
+                return (l == r) == (op == "==")
+            return super().binop(op, l, r, e)
+
+        def default_method(self, recv, m, args, e):
+            if isinstance(recv, Obj) and recv.name == "self" and m == "store_expr_in_memory":
+                self.stores.append(tuple(args))
+                return None
+            if isinstance(recv, Mem) and m == "with_offset":
+                return ("at", args[0])
+            if isinstance(recv, Ty_):
+                if m == "is_struct":
+                    return True
+                if m == "as_struct":
+                    return recv.fields["members"]
+                if m == "struct_layout":
+                    return Obj("StructLayout", offsets=recv.fields["offsets"])
+                if m == "stride":
+                    return Term("stride")
+            if isinstance(recv, Obj) and recv.name == "StructLayout" and m == "offsets":
+                return recv.fields["offsets"]
+            if m in ("unwrap", "expect") and recv is not None:
+                return recv
+            if m == "stride" and isinstance(recv, Term):
+                return Term("stride")
+            if m in ("is_some_and", "map") and len(args) == 1 and not isinstance(recv, list):
+                return (False if m == "is_some_and" else None) if recv is None else self.call_closure(args[0], [recv])
+            return super().default_method(recv, m, args, e)
+
+    names = [Term("n_a"), Term("n_b"), Term("n_c")]
+    ftys = [Term("ty_a"), Term("ty_b"), Term("ty_c")]
+    offs = [Term("off_a"), Term("off_b"), Term("off_c")]
+    members = [Obj("MemberTy", name=n, ty=t) for n, t in zip(names, ftys)]
+    sty = Ty_("Ty", members=members, offsets=offs)
+    vals = {0: Term("init_a"), 1: Term("init_b"), 2: Term("init_c")}
+    for order in ((2, 0, 1), (1, 2, 0), (0, 1, 2), (2, 1, 0)):
+        written = [Obj("MemberLiteral", name=Obj("NameWithRange", name=names[i], range=Term("r")), value=vals[i]) for i in order]
+        desc = "T.{%s}" % ", ".join("abc"[i] for i in order)
+        it = SI(funcs={"Some": lambda i, a: a[0]}, macros={"assert": lambda i, e, env: None})
+        try:
+            it.inline(sf, [sty, written, Mem("MemoryLoc")], recv=Obj("self"))
+        except (Panic, CannotEstablish) as c:
+            run.finding(sf.qual, "member-order:" + desc, sf.file, sf.ln, "cannot establish what store_struct_fields does for %s: %s" % (desc, getattr(c, "what", c)))
+            continue
+        want = [(vals[i], ftys[i], ("at", offs[i])) for i in order]
+        run.check(it.stores == want, sf.site(), "%s: initialisers compiled in the order written, each into its own field" % desc, sf.qual, "member-order:" + desc, sf.file, sf.ln,
+                  "for the literal %s (fields declared a, b, c) the initialisers are compiled as %s; they must be compiled in the order written, each once, with its field's type and "
+                  "offset: %s - a call or assignment inside an initialiser would otherwise run at another moment than the program says"
+                  % (desc, [tuple(map(repr, x)) for x in it.stores], [tuple(map(repr, x)) for x in want]))
+    items = [Term("item0"), Term("item1"), Term("item2")]
+    it = SI(funcs={"Some": lambda i, a: a[0]})
+    try:
+        it.inline(sa, [list(items), Term("sub_ty"), Mem("MemoryLoc")], recv=Obj("self"))
+        got = [(a[0], a[1]) for a in it.stores]
+        offs_ = [a[2] for a in it.stores]
+        run.check(got == [(x, Term("sub_ty")) for x in items] and len(set(map(repr, offs_))) == len(items), sa.site(), "array items compiled in the order written, each at its own offset", sa.qual,
+                  "item-order", sa.file, sa.ln, "the items of an array literal are compiled as %s at %s; they must be compiled first to last, each once, at idx * stride" % (list(map(repr, got)), list(map(repr, offs_))))
+    except (Panic, CannotEstablish) as c:
+        run.finding(sa.qual, "item-order", sa.file, sa.ln, "cannot establish what store_array_items does: %s" % getattr(c, "what", c))
+
+
 def _reuse(modname, fname):
     def f(ctx, run):
         mod = __import__(modname)
@@ -104,6 +196,7 @@ def rules(ctx):
     return [
         Rule("R01.a", "exit status: C main returns the entry point's converted result, 0 for a void entry point; it calls the declared entry point", 5, r01a),
         Rule("R01.b", "acceptance: a branch that always jumps (return/break/continue) takes no part in the common type of an if/else or switch, for every kind of the other branch's type", 60, r01b),
+        Rule("R01.c", "struct literal members and array items are compiled in the order written, each once, into its own field (store_struct_fields / store_array_items evaluated)", 5, r01c),
         Rule("R10.c", "fault path: brif(cond, pass, fail); puts(message), exit(1), trap in order (shared with C10)", 10, _reuse("c10", "r10c")),
         Rule("R10.a", "bounds check dominates every element access (shared with C10)", 7, _reuse("c10", "r10a")),
         Rule("R10.b", "#unwrap check dominates the payload access (shared with C10)", 3, _reuse("c10", "r10b")),
